@@ -56,6 +56,7 @@ class PeerBot:
                 w._mk_logs(s, w.s_cfg)
                 s.conn = QuicConnection(configuration=w.s_cfg,
                                         original_destination_connection_id=pk[0].dcid)
+                w._apply_stream_limits(s.conn, w.cfg["s_max_streams"])
         else:
             if callable(cut):
                 pred = cut
